@@ -10,6 +10,7 @@ import (
 	"net"
 	"os"
 	"path/filepath"
+	"regexp"
 	"strings"
 	"sync"
 	"time"
@@ -29,41 +30,42 @@ type marker struct {
 
 // World is one harness instance: a BESS server, at most one running agent, scripted peers.
 type World struct {
-	Dir         string
-	AgentBin    string
-	Cfg         agent.Cfg
-	Bess        *fakebess.Server
-	Agent       *agent.Agent
-	Peers       map[string]*pfcpx.Peer
-	UpTok       *pfcpx.Toks
-	CpTok       *pfcpx.Toks
-	Run         int
-	out         *bufio.Writer
-	outf        *os.File
-	Lines       int
-	Steps       int
-	Accepted    int // accepted session requests (establishment, modification, deletion)
-	EMSock      *net.UnixListener
-	emConn      *net.UnixConn
-	markers     chan marker
-	NotifyL     *net.UnixListener
-	NotifyC     *net.UnixConn
-	AccessIP    uint32
-	CoreIP      uint32
-	N4IP        uint32
-	RespWait    time.Duration
-	Quiet       time.Duration // silence window after each step
-	Died        bool
-	SnapEvery   bool // attach the guarded state snapshot to every recorded step
-	evMu        sync.Mutex
-	evLog       []agent.Event // verifPoint events reported by the agent
-	pendingWait func()
+	Dir           string
+	AgentBin      string
+	Cfg           agent.Cfg
+	Bess          *fakebess.Server
+	Agent         *agent.Agent
+	Peers         map[string]*pfcpx.Peer
+	UpTok         *pfcpx.Toks
+	CpTok         *pfcpx.Toks
+	Run           int
+	out           *bufio.Writer
+	outf          *os.File
+	Lines         int
+	Steps         int
+	Accepted      int // accepted session requests (establishment, modification, deletion)
+	EMSock        *net.UnixListener
+	emConn        *net.UnixConn
+	markers       chan marker
+	NotifyL       *net.UnixListener
+	NotifyC       *net.UnixConn
+	AccessIP      uint32
+	CoreIP        uint32
+	N4IP          uint32
+	RespWait      time.Duration
+	Quiet         time.Duration // silence window after each step
+	Died          bool
+	SnapEvery     bool // attach the guarded state snapshot to every recorded step
+	evMu          sync.Mutex
+	evLog         []agent.Event // verifPoint events reported by the agent
+	pendingWait   func()
 	notifyDropped bool
+	TeardownWait  time.Duration // how long a step waits for the end of a teardown (longer when the scheduler stalls it)
 	connBefore    string
-	DdnMs    int       // notification interval set through the hook (0 = the code's 20 s)
-	t0       time.Time // start of the world (time stamps of report events)
-	HoldFar     time.Duration // C14: delay of farLookup add commands while a modification with SNDEM is processed
-	LastErr     string
+	DdnMs         int           // notification interval set through the hook (0 = the code's 20 s)
+	t0            time.Time     // start of the world (time stamps of report events)
+	HoldFar       time.Duration // C14: delay of farLookup add commands while a modification with SNDEM is processed
+	LastErr       string
 }
 
 func ifaceIP(name string) uint32 {
@@ -638,4 +640,172 @@ func (w *World) DropNotifySocket() {
 
 	_ = os.Remove(filepath.Join(w.Dir, "notify.sock"))
 	w.notifyDropped = true
+}
+
+var (
+	reRaceBlock = regexp.MustCompile(`(?s)WARNING: DATA RACE\n(.*?)\n==================`)
+	reRaceFrame = regexp.MustCompile(`(?m)^\s+(/repo/[^\s:]+):(\d+)`)
+)
+
+// RaceReports reduces every data-race report in the agent's output to the unordered pair of the topmost repository
+// frames of its two accesses ("fileA:line|fileB:line"); hook files are skipped.
+func RaceReports(stderr string) []string {
+	seen := map[string]bool{}
+
+	var out []string
+
+	for _, m := range reRaceBlock.FindAllStringSubmatch(stderr, -1) {
+		// the two accesses are the first two stanzas of the report
+		stanzas := strings.Split(m[1], "\n\n")
+
+		var tops []string
+
+		for _, st := range stanzas {
+			if len(tops) == 2 {
+				break
+			}
+
+			if !(strings.Contains(st, "Write at") || strings.Contains(st, "Read at") || strings.Contains(st, "Previous write at") || strings.Contains(st, "Previous read at")) {
+				continue
+			}
+
+			top := "external"
+
+			for _, fm := range reRaceFrame.FindAllStringSubmatch(st, -1) {
+				if strings.Contains(fm[1], "verif_on.go") {
+					continue
+				}
+
+				top = strings.TrimPrefix(fm[1], "/repo/") + ":" + fm[2]
+
+				break
+			}
+
+			tops = append(tops, top)
+		}
+
+		if len(tops) == 2 {
+			if tops[0] > tops[1] {
+				tops[0], tops[1] = tops[1], tops[0]
+			}
+
+			k := tops[0] + "|" + tops[1]
+			if !seen[k] {
+				seen[k] = true
+				out = append(out, k)
+			}
+		}
+	}
+
+	return out
+}
+
+// RecordRaces writes one "race" line per distinct report of the current incarnation (call after it has ended).
+func (w *World) RecordRaces() int {
+	if w.Agent == nil {
+		return 0
+	}
+
+	rs := RaceReports(w.Agent.Stderr())
+	for _, r := range rs {
+		w.emit(map[string]interface{}{"ev": "race", "pair": r})
+	}
+
+	return len(rs)
+}
+
+// RandomScheduler arms the blocking gate at every scheduling point of the agent and releases the parked goroutines
+// one at a time in a seeded random order: the interleaving of the agent's goroutines at those points is then chosen
+// by the harness instead of by timing. Stop disarms the gates and releases everything.
+type RandomScheduler struct {
+	w    *World
+	stop chan struct{}
+	done chan struct{}
+}
+
+func (w *World) StartRandomScheduler(seed int64, maxDelay time.Duration) *RandomScheduler {
+	rs := &RandomScheduler{w: w, stop: make(chan struct{}), done: make(chan struct{})}
+	_ = w.Agent.Gate("*", true)
+
+	go func() {
+		defer close(rs.done)
+
+		rng := newRand(seed)
+		released := map[int]bool{}
+		firstSeen := map[int]time.Time{}
+
+		// one class of steps is stalled in this run: its goroutines stay parked for `hold` while the others proceed
+		// (orderings that need one goroutine to be slow - e.g. a teardown that outlasts the node's patience)
+		victims := []string{"", "conn.shutdown", "node.stop", "conn.hb", "conn.serve", "conn.reader", "sess.", "conn.new", "node.done"}
+		victim := victims[rng.Intn(len(victims))]
+		hold := time.Duration(20+rng.Intn(200)) * time.Millisecond
+
+		for {
+			select {
+			case <-rs.stop:
+				return
+			case <-w.Agent.Done():
+				return
+			default:
+			}
+
+			now := time.Now()
+
+			w.evMu.Lock()
+			var parked []int
+			for _, e := range w.evLog {
+				if !e.Gated || released[e.Seq] {
+					continue
+				}
+
+				if _, ok := firstSeen[e.Seq]; !ok {
+					firstSeen[e.Seq] = now
+				}
+
+				if victim != "" && strings.HasPrefix(e.Name, victim) && now.Sub(firstSeen[e.Seq]) < hold {
+					continue
+				}
+
+				parked = append(parked, e.Seq)
+			}
+			w.evMu.Unlock()
+
+			if len(parked) == 0 {
+				time.Sleep(300 * time.Microsecond)
+				continue
+			}
+
+			seq := parked[rng.Intn(len(parked))]
+			released[seq] = true
+			_ = w.Agent.Go(seq)
+
+			if maxDelay > 0 {
+				time.Sleep(time.Duration(rng.Int63n(int64(maxDelay) + 1)))
+			}
+		}
+	}()
+
+	return rs
+}
+
+func (rs *RandomScheduler) Stop() {
+	close(rs.stop)
+	<-rs.done
+
+	if rs.w.Agent != nil && rs.w.Agent.Alive() {
+		_ = rs.w.Agent.Gate("*", false)
+
+		rs.w.evMu.Lock()
+		var all []int
+		for _, e := range rs.w.evLog {
+			if e.Gated {
+				all = append(all, e.Seq)
+			}
+		}
+		rs.w.evMu.Unlock()
+
+		for _, s := range all {
+			_ = rs.w.Agent.Go(s)
+		}
+	}
 }
